@@ -16,33 +16,35 @@ func vRunCase8(t *testing.T, c vCase) (msg string) {
 	case "schedule":
 		ks := strings.Split(c.A, ",")
 		g := vMulPt(big.NewInt(7), vG())
-		var ref []string
-		refK := ""
-		for _, kh := range ks {
-			k := vBig(kh)
-			if k.Cmp(big.NewInt(1)) == 0 {
-				continue
-			}
-			e := vElementOf(g, big.NewInt(3))
-			s := vScalarOf(t, k)
-			field.VTrace = field.VTrace[:0]
-			field.VTraceOn = true
-			e.Multiply(s)
-			field.VTraceOn = false
-			got := append([]string(nil), field.VTrace...)
-			if ref == nil {
-				ref, refK = got, kh
-				if len(ref) == 0 {
-					return "instrumentation recorded nothing"
+		for _, scale := range []int64{3, 1} { // a projective and an affine (Z = 1) representation of the point
+			var ref []string
+			refK := ""
+			for _, kh := range ks {
+				k := vBig(kh)
+				if k.Cmp(big.NewInt(1)) == 0 {
+					continue
 				}
-				continue
-			}
-			if len(got) != len(ref) {
-				return "Multiply executes " + itoa(len(got)) + " field-level operations for k=" + kh + " but " + itoa(len(ref)) + " for k=" + refK
-			}
-			for i := range got {
-				if got[i] != ref[i] {
-					return "field-operation sequences for k=" + kh + " and k=" + refK + " differ at step " + itoa(i) + ": " + got[i] + " vs " + ref[i]
+				e := vElementOf(g, big.NewInt(scale))
+				s := vScalarOf(t, k)
+				field.VTrace = field.VTrace[:0]
+				field.VTraceOn = true
+				e.Multiply(s)
+				field.VTraceOn = false
+				got := append([]string(nil), field.VTrace...)
+				if ref == nil {
+					ref, refK = got, kh
+					if len(ref) == 0 {
+						return "instrumentation recorded nothing"
+					}
+					continue
+				}
+				if len(got) != len(ref) {
+					return "Multiply executes " + itoa(len(got)) + " field-level operations for k=" + kh + " but " + itoa(len(ref)) + " for k=" + refK
+				}
+				for i := range got {
+					if got[i] != ref[i] {
+						return "field-operation sequences for k=" + kh + " and k=" + refK + " differ at step " + itoa(i) + ": " + got[i] + " vs " + ref[i]
+					}
 				}
 			}
 		}
